@@ -36,10 +36,22 @@ func (m *Model) expect(sn any, v any, p Pos) any {
 		np := p
 		np.File = file
 		np.Named = true
+		if ts, ok := t.(map[string]any); ok && m.dev("REF_UNTYPED_DEF_IS_ANY") && strings.Contains(ref, "#/") && len(ts) > 0 {
+			_, hasType := ts["type"]
+			_, hasProps := ts["properties"]
+			if !hasType && !hasProps {
+				m.fire("REF_UNTYPED_DEF_IS_ANY")
+				return rawValue(v)
+			}
+		}
 		return m.expect(t, v, np)
 	}
 	if v == nil {
 		return nil
+	}
+	if m.dev("COMPOSITE_DEF_REF_IS_ANY") && p.Named && compositeWithRef(s, typeList(s)) {
+		m.fire("COMPOSITE_DEF_REF_IS_ANY")
+		return rawValue(v)
 	}
 	if _, ok := s["enum"]; ok {
 		return v
